@@ -213,7 +213,40 @@ func constOf(k string) (int64, bool) {
 
 // ProveLE reports whether  x <= y + k  follows from the collected facts.
 func (oc *OrderCtx) ProveLE(x, y ssa.Value, k int64) bool {
-	return oc.prove(oc.key(x, 0), oc.key(y, 0), k, 0, map[string]bool{})
+	kx, ky := oc.key(x, 0), oc.key(y, 0)
+	if oc.prove(kx, ky, k, 0, map[string]bool{}) {
+		return true
+	}
+	return oc.proveSplit(x, y, kx, ky, k, oc.at.Block(), 2)
+}
+
+// proveSplit: case split over the edges entering b. When the dominating conditions alone do not give the
+// fact (`if a != 0 && a >= n { return }` leaves "a == 0 or a < n"), the query is asked once per predecessor
+// with the conditions dominating that predecessor plus the condition of the edge taken; every case must hold.
+// Sound because every execution reaching b enters through one of these edges; x and y must be defined outside
+// b's phis so that they denote the same value on every edge.
+func (oc *OrderCtx) proveSplit(x, y ssa.Value, kx, ky string, k int64, b *ssa.BasicBlock, depth int) bool {
+	if depth == 0 || b == nil || len(b.Preds) < 2 {
+		return false
+	}
+	for _, v := range []ssa.Value{x, y} {
+		if phi, ok := v.(*ssa.Phi); ok && phi.Block() == b {
+			return false
+		}
+	}
+	for _, pr := range b.Preds {
+		sub := &OrderCtx{at: oc.at, fn: oc.fn, defs: oc.defs, uns: oc.uns, mr: oc.mr}
+		for d := pr.Idom(); d != nil; d = d.Idom() {
+			sub.addBranchFacts(d, pr)
+		}
+		if ifi, ok := pr.Instrs[len(pr.Instrs)-1].(*ssa.If); ok && pr.Succs[0] != pr.Succs[1] {
+			sub.addCond(ifi.Cond, pr.Succs[0] == b, 0)
+		}
+		if !sub.prove(kx, ky, k, 0, map[string]bool{}) && !sub.proveSplit(x, y, kx, ky, k, pr, depth-1) {
+			return false
+		}
+	}
+	return true
 }
 
 func (oc *OrderCtx) prove(x, y string, k int64, depth int, seen map[string]bool) bool {
